@@ -12,7 +12,7 @@ def expectedC14 : List (String × String) := [
   ("file:compat.py", "2a259e16acd200bc"),
   ("file:config.py", "142bde514c82c29d"),
   ("file:io/base.py", "e2315106bbcaaf95"),
-  ("file:io/json.py", "5e1ef8b67f567a77"),
+  ("file:io/json.py", "88171728b8aebfec"),
   ("file:transform/regex.py", "7acd499a0489265c"),
   ("file:transform/reshape.py", "b1f08e12c952f763"),
   ("file:transform/sorts.py", "137f7e8a70e043fe"),
